@@ -15,7 +15,7 @@
 // undefined behaviour into a detectable failure (Eigen assertions: exit 42;
 // AddressSanitizer for the dangling Ref); otherwise the sequence stops with
 // "skipped <k>".  If such an operation returns normally, "<k>.survived 1" is
-// printed and the plug-in reports it.
+// printed; the plug-in only counts it (outside the property, nothing to report).
 #define VF_MAIN
 #include "common.hpp"
 #include <BayesFilters/Gaussian.h>
